@@ -582,6 +582,8 @@ class ReaderTranslator:
             return toks, (fn,) + tuple(args)
         if fn == "slice" and len(args) == 2:
             return toks, ("slice", args[0], None if args[1] == ("const", None) else args[1])
+        if fn in ("tuple", "set", "frozenset") and isinstance(c.func, ast.Name) and c.func.id not in env:
+            return toks, ("call", ("type", fn), tuple(args))   # the same value whether the type is named here or passed in
         if fn in ("int", "complex", "tuple", "set", "frozenset", "list", "bytes", "str", "float"):
             return toks, ("call", fn, tuple(args))
         if isinstance(c.func, ast.Name) and isinstance(env.get(c.func.id), tuple) and env[c.func.id] and env[c.func.id][0] == "dispatch":
